@@ -40,8 +40,10 @@ LeafTab == [
   float32    |-> FloatTab,
   float64    |-> FloatTab,
   \* complex tokens: z=(0,0) a=(1,2) b=(1,3) c=(2,0) d=(-1.5,5) zni=(0,-0) znr=(-0,0)
-  complex64  |-> << L("z", 1), L("a", 2), L("b", 3), L("c", 4), L("d", 0), Tw("zni", 1), Tw("znr", 1) >>,
-  complex128 |-> << L("z", 1), L("a", 2), L("b", 3), L("c", 4), L("d", 0), Tw("zni", 1), Tw("znr", 1) >>,
+  complex64  |-> << L("z", 1), L("a", 2), L("c", 4), L("b", 3), L("d", 0), Tw("zni", 1), Tw("znr", 1) >>,
+  \* table order: the first two typical tokens a=(1,2), c=(2,0) have their real and imaginary parts
+  \* ordered in OPPOSITE directions (a comparison that is not real-then-imaginary is not a strict order on them)
+  complex128 |-> << L("z", 1), L("a", 2), L("c", 4), L("b", 3), L("d", 0), Tw("zni", 1), Tw("znr", 1) >>,
   \* "" < "%%d" < "100%" < "Aa" < "BB" < "a" < "a\"\n" < "a%sb" < "b" < "é" < "\xff"   (bytewise)
   \* the typical token (index 2) contains a '%': text pasted into a format string is mangled
   string     |-> << L("empty", 0), L("pfmt", 7), L("a", 5), L("b", 8), L("Aa", 3), L("BB", 4), L("quote", 6), L("eacute", 9), L("xff", 10),
@@ -151,8 +153,9 @@ Base(env, T, m, p, s, fuel) ==
          ELSE LET p1 == p \o "/1"
                   p2 == IF m.share THEN p1 ELSE p \o "/2"
                   s2 == IF m.uni \/ m.share THEN s ELSE s + 1
-                  kv == << [k |-> Base(env, T.key, m, p \o "k1", s, fuel),     v |-> Base(env, T.e, m, p1, s, fuel)],
-                           [k |-> Base(env, T.key, m, p \o "k2", s + 1, fuel), v |-> Base(env, T.e, m, p2, s2, fuel)] >> IN
+                  mk == [m EXCEPT !.fz = ""]     \* keys keep their tokens (all-zero keys would collapse into one)
+                  kv == << [k |-> Base(env, T.key, mk, p \o "k1", s, fuel),     v |-> Base(env, T.e, m, p1, s, fuel)],
+                           [k |-> Base(env, T.key, mk, p \o "k2", s + 1, fuel), v |-> Base(env, T.e, m, p2, s2, fuel)] >> IN
               MapV(p, IF m.rev THEN Rev(kv) ELSE kv)
     [] T.k = "struct" -> LET e2 == Bind(env, T) IN
          StructV([i \in DOMAIN T.fields |-> Base(e2, T.fields[i].t, m, p \o "." \o ToString(i), s + i - 1, fuel)])
